@@ -87,10 +87,11 @@ theorem serElementForms_correct : ∀ f ∈ (serElementForms : List (String × (
 
 /-! ### `Hash for Element | AffinePoint` -/
 
-/-- what reaches the hasher is exactly the encoder's output on the element (never a coordinate of the stored point) -/
-theorem hashForms_correct {β : Type} : ∀ f ∈ (hashForms : List (String × ((α → β) → α → β))),
-    ∀ (enc : α → β) (e : α), f.2 enc e = enc e := by
+/-- what reaches the hasher is exactly the encoder's output on the element — for EVERY reading `raw` of the stored curve
+point, i.e. never anything read off `self.inner` (the defect of the pinned tree makes this unprovable: `raw e = enc e`) -/
+theorem hashForms_correct {β : Type} : ∀ f ∈ (hashForms : List (String × ((α → β) → (α → β) → α → β))),
+    ∀ (enc raw : α → β) (e : α), f.2 enc raw e = enc e := by
   simp only [hashForms, List.forall_mem_cons]
-  repeat' (first | constructor | (intro enc e; first | trivial | rfl) | (intro f hf; simp at hf))
+  repeat' (first | constructor | (intro enc raw e; first | trivial | rfl) | (intro f hf; simp at hf))
 
 end Formulas.ConvForms
